@@ -4,7 +4,7 @@
     functions of the served subtree alone: nothing beside or above the root is ever
     read.  (Hypothesis: the served directory exists; when it does not, MKCOL of "/"
     consults the root's parent — see [mkcol_root_reads_parent].) *)
-From GW Require Import Base GoPath Fs DavServer FsProofs UploadSteps UploadStepsProofs CopySteps CopyStepsProofs.
+From GW Require Import Base GoPath Fs DavServer FsProofs UploadSteps UploadStepsProofs CopySteps CopyStepsProofs Rfc4918 DavRefine DavCorollaries.
 Local Open Scope list_scope.
 
 (** * Paths below a prefix *)
@@ -342,3 +342,61 @@ Example mkcol_root_reads_parent :
   geto sb1 ["top"; "root"]%string = geto sb2 ["top"; "root"]%string /\
   status (snd (serve ["top"; "root"]%string sb1 r)) <> status (snd (serve ["top"; "root"]%string sb2 r)).
 Proof. vm_compute. split; [reflexivity|discriminate]. Qed.
+
+(** * Two served directories (C17)
+
+    The response is a function of the served subtree and the request: the same subtree
+    served from two different places of two different sandboxes gives the same answers —
+    every projected observable, the bodies' leak bit included — and the same subtree
+    afterwards.  Where the served directory lives therefore cannot flow into a response. *)
+Theorem serve_two_roots root1 root2 sb1 sb2 n0 r :
+  geto sb1 root1 = Some n0 -> geto sb2 root2 = Some n0 ->
+  snd (serve root1 sb1 r) = snd (serve root2 sb2 r) /\
+  geto (fst (serve root1 sb1 r)) root1 = geto (fst (serve root2 sb2 r)) root2.
+Proof.
+  intros H1 H2.
+  destruct (serve_relocates root1 sb1 n0 r H1) as [A1 B1].
+  destruct (serve_relocates root2 sb2 n0 r H2) as [A2 B2].
+  split; congruence.
+Qed.
+
+(** Along a history: as long as the served directory exists (DELETE of "/" removes it),
+    all answers agree and the served subtrees stay equal. *)
+Fixpoint agree_while_served (root1 root2 : list string) (sb1 sb2 : option node) (rs : list request) : Prop :=
+  match rs with
+  | [] => True
+  | r :: rest =>
+    snd (serve root1 sb1 r) = snd (serve root2 sb2 r) /\
+    geto (fst (serve root1 sb1 r)) root1 = geto (fst (serve root2 sb2 r)) root2 /\
+    (exists_ (geto (fst (serve root1 sb1 r)) root1) = true ->
+     agree_while_served root1 root2 (fst (serve root1 sb1 r)) (fst (serve root2 sb2 r)) rest)
+  end.
+
+Theorem history_two_roots root1 root2 rs : forall sb1 sb2,
+  geto sb1 root1 = geto sb2 root2 -> exists_ (geto sb1 root1) = true ->
+  agree_while_served root1 root2 sb1 sb2 rs.
+Proof.
+  induction rs as [|r rest IH]; intros sb1 sb2 Heq Hex; [exact I|].
+  cbn [agree_while_served].
+  destruct (geto sb1 root1) as [n0|] eqn:E1; [|discriminate]. symmetry in Heq.
+  destruct (serve_two_roots root1 root2 sb1 sb2 n0 r E1 Heq) as [A B].
+  split; [exact A|]. split; [exact B|]. intros Hex'. apply IH; assumption.
+Qed.
+
+(** The premises are met by different places with different surroundings. *)
+Example two_roots_example :
+  let n0 := Dir [("a", File "x" 1)]%string in
+  let sb1 := Some (Dir [("srv", Dir [("dav", n0)]); ("secret", File "s" 2)])%string in
+  let sb2 := Some (Dir [("home", Dir [("u", Dir [("data", n0)])])])%string in
+  geto sb1 ["srv"; "dav"]%string = Some n0 /\ geto sb2 ["home"; "u"; "data"]%string = Some n0.
+Proof. vm_compute. split; reflexivity. Qed.
+
+Lemma history_no_leak root rs : forall sb,
+  Forall (fun resp => r_leak resp = false) (snd (run root sb rs)).
+Proof.
+  induction rs as [|r rest IH]; intros sb; cbn [run]; [constructor|].
+  pose proof (DavCorollaries.no_host_path_disclosed root sb r) as Hl.
+  destruct (serve root sb r) as [sb1 resp] eqn:E.
+  specialize (IH sb1). destruct (run root sb1 rest) as [sb2 resps] eqn:E2.
+  cbn [snd] in *. constructor; assumption.
+Qed.
